@@ -35,7 +35,7 @@ func (c12) RunBatch(ctx *core.Ctx, batch int) {
 	switch batch - plan.total() {
 	case 0:
 		// hostile values in every leaf position
-		for _, h := range gen.HostileStrings {
+		for _, h := range gen.ValueDict(ctx.Rand("values"), 300) {
 			if !utf8.ValidString(h) || strings.Contains(h, `"`) {
 				continue
 			}
